@@ -118,7 +118,7 @@ def run(prop, tier, seed, replay=None):
     # anti-vacuity: every producible observation class must have been produced somewhere
     need = {"tracker:port", "tracker:noport", "webseed", "dht4:port", "dht4:noport", "dht6:port", "dht6:noport", "peer:version", "peer:port",
             "peer:dhtport", "incoming:accepted", "incoming:refused", "peer:ext0"}
-    if not replay and need - seen:
+    if not replay and need - seen and not v.violations:
         raise Internal("privacy: observation classes never produced: %s" % sorted(need - seen))
     v.cov["traces_validated_against_impl"] = len(cases)
     v.cov["evaluations"] = steps
